@@ -1238,6 +1238,54 @@ def judgeRelsum : P Verdict := do
       if checked == 0 then return .skip s!"{tag}:no-relation"
       return .ok s!"{tag}:{if vs.contains "y" then "yes" else "no"}"
 
+open P in
+/-- `tuall M k mask*`: the verdict may not depend on algorithm or options (C01); within oracle range it is the oracle's -/
+def judgeTuall : P Verdict := do
+  let (m, n, M) ← denseMat
+  let k ← nat
+  let masks ← many nat k
+  expect "=>"
+  let status ← tok
+  if status != "ok" then return .fail "tuall" s!"status {status}"
+  let vs ← parseVerdicts k
+  let judged := (masks.zip vs).filter (fun (mk, _) => !(maskStopFlags mk) && !(maskStrategy mk ≥ 5 && maskAlg mk == 0))
+  match judged with
+  | [] => return .skip "tuall:none"
+  | (mk0, v0) :: rest =>
+    if v0.startsWith "e:" then return .fail "tuall:error" s!"mask {mk0}: {v0}"
+    for (mk, v) in rest do
+      if v != v0 then return .fail "tuall:disagree" s!"mask {mk0} answers {v0} but mask {mk} answers {v}"
+    if tuOracleFeasible m n then
+      let e := isTernary M && isTU m n M
+      if (v0 == "y") != e then return .fail "tuall:verdict" s!"all masks answer {v0}, model says {e}"
+      return .ok s!"tuall:oracle:{v0}"
+    return .ok s!"tuall:agree:{v0}:{if m + n < 16 then "small" else "medium"}"
+
+open P in
+/-- `tusigned mask M`: Camion signing by the library, then TU test of the signed matrix and regularity test of the 0/1 input:
+the two verdicts must agree (Camion: a 0/1 matrix is regular iff its Camion signing is TU) -/
+def judgeTusigned : P Verdict := do
+  let _mask ← nat
+  let (m, n, M) ← denseMat
+  expect "=>"
+  let status ← tok
+  if !isBinary M then
+    return .skip "tusigned:nonbinary"
+  if status != "ok" then return .fail "tusigned" s!"status {status}"
+  expect "reg"; let vr ← tok
+  expect "tu"; let vt ← tok
+  let some A ← csr | return .fail "tusigned" "no signed matrix"
+  match checkCsr A m n with
+  | .error e => return .fail "tusigned:csr" e
+  | .ok S =>
+    if support S != M || !isTernary S then return .fail "tusigned:support" "the signed matrix does not have the input's support"
+    if vr.startsWith "e:" || vt.startsWith "e:" then return .fail "tusigned:error" s!"reg {vr} tu {vt}"
+    if vr != vt then return .fail "tusigned:camion" s!"regularity test answers {vr} for the 0/1 matrix, TU test answers {vt} for its Camion signing"
+    if tuOracleFeasible m n then
+      if (vt == "y") != isTU m n S then return .fail "tusigned:verdict" s!"TU test of the signed matrix answers {vt}, model says {isTU m n S}"
+      return .ok s!"tusigned:oracle:{vt}"
+    return .ok s!"tusigned:agree:{vt}"
+
 /-! ### dispatcher -/
 
 def runP (p : P Verdict) (toks : List String) : Verdict :=
@@ -1309,8 +1357,28 @@ def judgeLine (line : String) : Verdict :=
       | "network" => runP judgeNetwork toks
       | "repmat" => runP judgeRepmat toks
       | "rel" => runP judgeRel toks
+      | "tuall" => runP judgeTuall toks
+      | "tusigned" => runP judgeTusigned toks
       | "relsum" => runP judgeRelsum toks
       | o => .badOp s!"unknown op '{o}'"
+    -- "@want=yes|no": the generator knows the verdict by construction (closure theorems); used beyond the oracles' range
+    let want? := (mods.find? (·.startsWith "@want=")).map (fun t => (t.drop 6).toString)
+    let got? : Option String :=
+      match op.headD "" with
+      | "tu" | "regular" => L.payload.head?
+      | "tusigned" => (L.payload.getD 1 "?" |> fun t => if t == "y" then some "yes" else if t == "n" then some "no" else none)
+      | _ => none
+    let v : Verdict :=
+      match v, want?, got? with
+      | .fail t m, _, _ => .fail t m
+      | .badOp m, _, _ => .badOp m
+      | v, some w, some g =>
+        if L.status == "ok" && g != w && g != "undet" then
+          .fail s!"{op.headD ""}:constructed-verdict" s!"answer {g} for a matrix that is {w} by construction"
+        else match v with
+          | .skip t => if L.status == "ok" then .ok s!"{t}:by-construction:{w}" else .skip t
+          | v => v
+      | v, _, _ => v
     match v, generic with
     | .fail t m, _ => .fail t m
     | .badOp m, _ => .badOp m
